@@ -56,6 +56,11 @@ CHECKS["C14"] = dict(
  note="<= 2 driver steps exhaustive in the model (83k states), replay of ~1500 (quick) / all deduplicated (thorough) behaviours plus simulated 4-step behaviours. Admissible split: every estimate is passed in a call made when or after the last scalar column appears. 3 time steps, 7^3 grid.",
  technique="TLA+ symbolic-table model of over_time checked with TLC (split invariance); behaviours replayed on the real driver against per-step fresh recomputation",
  design_ref="DESIGN.md 4.4, 5/C14")
+CHECKS["C15"] = dict(
+ text="Riemannian.tla states the textbook definitions (inverse by cofactors, Christoffel symbols of both kinds, R^a_bcd, R_abcd, Ricci, scalar, Einstein) on truncated Taylor jets of the metric in exact arithmetic modulo primes (Fp.tla, Jet.tla); TLC evaluates them for a list of 2-, 3- and 4-dimensional polynomial metrics (diagonal, one off-diagonal pair, dense), checks Riemann symmetries, first Bianchi identity, g g^-1 = 1 and metric compatibility on the result, and the harness lifts the residues of 8 primes to rationals (CRT + rational reconstruction). Each of the ten quantities of the real AurelCoreSymbolic, substituted at the rational probe point, is compared with the exact value for both simplify flags and both cache states; the request-order part uses the cache model AurelCache on the symbolic core's extracted graph (all histories of <= 3 requests) replayed on the real object.",
+ note="simplify=True only on 2-D and diagonal metrics in quick (sympy.simplify on dense 3-D/4-D metrics takes minutes; time-outs are counted as not explored). Values at one generic rational point per metric (a rational identity that holds at a generic point holds identically with overwhelming probability, but this is sampling). Tolerance 1e-9 relative.",
+ technique="TLA+ textbook tensor calculus on jets in exact modular arithmetic evaluated by TLC (oracle validated by identities), lifted by CRT and compared with the real symbolic core; TLA+ cache model for request orders",
+ design_ref="DESIGN.md 4.7, 5/C15")
 
 NA = {
  "C17": "Closed-form transcendental solutions (sin, sinh, 2F1, t^(2/3)): no state, history or case analysis for a TLA+ specification to enumerate, and TLC has neither reals nor transcendental functions; a CAS/interval technique would be a different family (DESIGN.md section 6).",
